@@ -27,6 +27,7 @@ History: a list of top-level calls [who, n] with who = "direct" (f itself, the a
             the one of a fresh model in which the failing calls were never made
 """
 import itertools
+import re
 
 from .impl import mx, quiet, close_all
 from modelx.core.errors import FormulaError
@@ -275,6 +276,12 @@ def run_scenario(sc, fail, stats, aspects=("carry", "traceback", "state", "retry
                         if listed != want:
                             bad("traceback", "get_traceback() after %s = %r but the executing chain was %r" % (what, listed, want), k)
                             return False
+                        if got[0] == "err":
+                            frames = len(re.findall(r"^\d+: ", str(got[1]), re.M))
+                            if frames != len(want):
+                                bad("traceback", "the FormulaError of %s lists %d formula frames, the executing chain had %d" % (
+                                    what, frames, len(want)), k)
+                                return False
                     if "state" in aspects:
                         cs = ex.callstack
                         if len(cs) or len(cs.idxstack) or cs.counter or len(ex.refstack) or ex.is_executing:
